@@ -1,6 +1,7 @@
 package chainsim
 
 import (
+	"bytes"
 	"errors"
 	"fmt"
 	"math/big"
@@ -167,6 +168,9 @@ func execLedger(prop string, p *Plan, col *kernel.Collector) []kernel.Violation 
 			l.nodeSupply(i, op, n)
 		} else {
 			l.nodeLedger(i, n)
+			if op.Kind == "receipts" && len(c.vs) == 0 {
+				l.fastReceipts(i, op, n)
+			}
 		}
 		if len(c.vs) > 0 {
 			return c.vs
@@ -312,6 +316,12 @@ func (l *ledgerRun) replayBlock(id int, oget refmodel.Getter) {
 			slotBefore = st.GetState(*tx.To(), setSlot)
 		}
 		oogBefore := st.GetState(u.Contracts["oog"], common.Hash{})
+		var fcTarget common.Address
+		var fcBefore *big.Int
+		if kind == TxFundCreate {
+			fcTarget = common.BytesToAddress(tx.Data()[12:32])
+			fcBefore = st.GetBalance(fcTarget)
+		}
 		st.Prepare(tx.Hash(), b.Hash(), i)
 		receipt, gas, err := core.ApplyTransaction(u.Cfg, u.O, nil, gp, st, header, tx, usedGas, vm.Config{})
 		if err != nil {
@@ -324,6 +334,22 @@ func (l *ledgerRun) replayBlock(id int, oget refmodel.Getter) {
 			return
 		}
 		l.col.Inc("txs_replayed")
+		switch kind {
+		case TxBalanceArith:
+			l.col.Inc("probe_balance_values_used_in_arithmetic")
+		case TxFundCreate:
+			// the address was paid before the creation ran; whether the creation failed, reverted
+			// or succeeded, the payment stays
+			if got, want := st.GetBalance(fcTarget), new(big.Int).Add(fcBefore, tx.Value()); got.Cmp(want) != 0 {
+				c.add("payment-to-creation-address-lost", id, "block id %d tx %d: %x held %v, was paid %v and then used as a CREATE target (init code variant %d): holds %v, expected %v", id, i, fcTarget[:4], fcBefore, tx.Value(), meta.B%3, got, want)
+				return
+			}
+			if st.GetCodeSize(fcTarget) > 0 {
+				l.col.Inc("probe_create_succeeded_on_funded_address")
+			} else if tx.Value().Sign() > 0 {
+				l.col.Inc("probe_create_failed_on_funded_address")
+			}
+		}
 		if l.prop == "C05" {
 			if after.Cmp(cur) > 0 {
 				c.add("transaction-created-coins", id, "block id %d tx %d (kind %d): total supply rose from %v to %v while executing a transaction", id, i, kind, cur, after)
@@ -379,7 +405,7 @@ func (l *ledgerRun) replayBlock(id int, oget refmodel.Getter) {
 			recipients[*tx.To()] = true
 		}
 		switch kind {
-		case TxSelfDestruct, TxForward, TxCallThenRevert:
+		case TxSelfDestruct, TxForward, TxCallThenRevert, TxFundCreate:
 			recipients[common.BytesToAddress(tx.Data()[12:32])] = true
 		case TxSelfDestructLoop:
 			recipients[common.BytesToAddress(tx.Data()[12:32])] = true
@@ -573,6 +599,82 @@ func (l *ledgerRun) nodeSupply(i int, op Op, n *Node) {
 	}
 }
 
+// fastReceipts: what a node stores for a block it did not execute (fast sync) equals, field by
+// field, what the executing oracle node stores, and obeys the per-transaction equations.
+func (l *ledgerRun) fastReceipts(i int, op Op, n *Node) {
+	u, c := l.u, l.chainRun
+	for _, id := range op.Blocks {
+		if !c.fast[op.Node][id] || c.accepted[op.Node][id] {
+			continue
+		}
+		b := u.Blocks[id]
+		got := core.GetBlockReceipts(n.Disk, b.Hash(), b.NumberU64())
+		want := core.GetBlockReceipts(u.ODB, b.Hash(), b.NumberU64())
+		if len(got) != len(b.Transactions()) || len(want) != len(got) {
+			c.add("fast-synced-receipts-missing", i, "node %d block id %d: %d transactions, %d receipts stored (executing node %d)", op.Node, id, len(b.Transactions()), len(got), len(want))
+			return
+		}
+		signer := types.MakeSigner(u.Cfg, b.Number())
+		var sum uint64
+		logIndex := uint(0)
+		for ti, tx := range b.Transactions() {
+			g, w := got[ti], want[ti]
+			diff := ""
+			switch {
+			case g.Status != w.Status || !bytes.Equal(g.PostState, w.PostState):
+				diff = "status / post-state"
+			case g.CumulativeGasUsed != w.CumulativeGasUsed:
+				diff = "cumulative gas"
+			case g.GasUsed != w.GasUsed:
+				diff = fmt.Sprintf("gas used (%d, executing node %d)", g.GasUsed, w.GasUsed)
+			case g.TxHash != w.TxHash || g.TxHash != tx.Hash():
+				diff = "transaction hash"
+			case g.ContractAddress != w.ContractAddress:
+				diff = "contract address"
+			case g.Bloom != w.Bloom:
+				diff = "bloom"
+			case len(g.Logs) != len(w.Logs):
+				diff = "number of logs"
+			}
+			if diff == "" {
+				for k := range g.Logs {
+					a, e := g.Logs[k], w.Logs[k]
+					if a.Address != e.Address || !bytes.Equal(a.Data, e.Data) || fmt.Sprint(a.Topics) != fmt.Sprint(e.Topics) {
+						diff = "log content"
+					} else if a.BlockNumber != b.NumberU64() || a.BlockHash != b.Hash() || a.TxHash != tx.Hash() || a.TxIndex != uint(ti) || a.Index != logIndex {
+						diff = fmt.Sprintf("log position (block #%d %x tx %x index %d log %d; expected #%d %x %x %d %d)", a.BlockNumber, a.BlockHash[:4], a.TxHash[:4], a.TxIndex, a.Index, b.NumberU64(), b.Hash().Bytes()[:4], tx.Hash().Bytes()[:4], ti, logIndex)
+					}
+					logIndex++
+				}
+			}
+			if diff != "" {
+				c.add("fast-synced-receipt-differs-from-executed", i, "node %d block id %d (#%d) tx %d: %s", op.Node, id, b.NumberU64(), ti, diff)
+				return
+			}
+			if tx.To() == nil {
+				from, _ := types.Sender(signer, tx)
+				if wantAddr := crypto.CreateAddress(from, tx.Nonce()); g.ContractAddress != wantAddr {
+					c.add("fast-synced-receipt-wrong", i, "node %d block id %d tx %d: contract address %x, sender and nonce give %x", op.Node, id, ti, g.ContractAddress[:4], wantAddr[:4])
+					return
+				}
+			}
+			if intr := intrinsicGas(tx.Data(), tx.To() == nil); g.GasUsed > tx.Gas() || g.GasUsed < (intr+1)/2 {
+				c.add("gas-used-out-of-bounds", i, "node %d (fast-synced) block id %d tx %d: gas used %d, intrinsic %d, limit %d", op.Node, id, ti, g.GasUsed, intr, tx.Gas())
+				return
+			}
+			sum += g.GasUsed
+			l.col.Inc("fast_synced_receipts_checked")
+		}
+		if sum != b.GasUsed() {
+			c.add("block-gas-differs-from-receipt-sum", i, "node %d (fast-synced) block id %d: receipts add up to %d gas, the header says %d", op.Node, id, sum, b.GasUsed())
+			return
+		}
+		if len(b.Transactions()) >= 3 {
+			l.col.Inc("probe_fast_synced_block_with_three_or_more_txs")
+		}
+	}
+}
+
 // nodeLedger: the exactly-once ledger. At the node's head, every simulator-owned
 // account has nonce = number of its transactions on the canonical chain and the
 // balance an independent fold over the canonical chain predicts.
@@ -645,10 +747,10 @@ func (l *ledgerRun) nodeLedger(i int, n *Node) {
 			get(b.Coinbase()).Add(get(b.Coinbase()), fee)
 			val := tx.Value()
 			switch kind {
-			case TxTransfer, TxSetStorage, TxLog, TxExtSize, TxFundDealloc:
+			case TxTransfer, TxSetStorage, TxLog, TxExtSize, TxFundDealloc, TxBalanceArith:
 				get(from).Sub(get(from), val)
 				get(*tx.To()).Add(get(*tx.To()), val)
-			case TxForward:
+			case TxForward, TxFundCreate:
 				to := common.BytesToAddress(tx.Data()[12:32])
 				get(from).Sub(get(from), val)
 				get(to).Add(get(to), val)
@@ -731,6 +833,11 @@ func GenLedger(rng *kernel.RNG, env *kernel.Env, k int) any {
 	for i := 0; i < nn; i++ {
 		p.Nodes = append(p.Nodes, genNodeCfg(rng))
 		ops := GenDeliveries(rng, &p.Recipe, i, 0.05, 0.08, rng.Range(1, 6))
+		if rng.Bool(0.3) {
+			// this node fast-syncs first: headers, then bodies + receipts up to a pivot, the
+			// pivot's state, and full imports from there on
+			ops = append(genFastSync(rng, &p.Recipe, i), ops...)
+		}
 		var out []Op
 		for _, op := range ops {
 			// C06: a block that contains one invalid transaction arrives first
@@ -746,4 +853,37 @@ func GenLedger(rng *kernel.RNG, env *kernel.Env, k int) any {
 	}
 	p.Ops = interleave(rng, lists)
 	return p
+}
+
+// genFastSync: the three stages of a fast sync along one branch of the recipe.
+func genFastSync(rng *kernel.RNG, r *Recipe, node int) []Op {
+	if len(r.Blocks) == 0 {
+		return nil
+	}
+	leaf := rng.Range(1, len(r.Blocks))
+	var path []int
+	for id := leaf; id > 0; id = r.Blocks[id-1].Parent {
+		path = append([]int{id}, path...)
+	}
+	split := func(kind string, ids []int) []Op {
+		var ops []Op
+		for len(ids) > 0 {
+			k := rng.Range(1, 8)
+			if k > len(ids) {
+				k = len(ids)
+			}
+			ops = append(ops, Op{Kind: kind, Node: node, Blocks: append([]int{}, ids[:k]...)})
+			ids = ids[k:]
+		}
+		return ops
+	}
+	pivot := rng.Intn(len(path))
+	ops := split("headers", path)
+	ops = append(ops, split("receipts", path[:pivot+1])...)
+	if rng.Bool(0.15) {
+		ops = append(ops, Op{Kind: "restart", Node: node})
+	}
+	ops = append(ops, Op{Kind: "pivot", Node: node, Blocks: []int{path[pivot]}, Arg: rng.Uint64()})
+	ops = append(ops, split("insert", path[pivot+1:])...)
+	return ops
 }
